@@ -17,7 +17,7 @@ use iroh_docs::{
 };
 use serde::{Deserialize, Serialize};
 
-use crate::common::*;
+use crate::{common::*, syncmsg::honest_fp_tok, world::{make_entry, NOW, PEER}};
 
 #[derive(Clone, Debug, Serialize, Deserialize)]
 pub enum Op {
@@ -25,7 +25,7 @@ pub enum Op {
     Setup { sync_a: bool, sync_b: bool },
     /// pick the `k % enabled`-th enabled scheduler action
     Choose { k: usize },
-    /// a concrete action (corpus): `dial n report`, `deliver n`, `lose n`, `cc n i`, `ca n sid`, `cd n`
+    /// a concrete action (corpus): `dial n report`, `report n v`, `deliver n`, `lose n`, `cc n i`, `ca n sid`, `cd n`
     Act { a: String },
 }
 
@@ -98,6 +98,12 @@ fn enabled(net: &Net) -> Vec<String> {
         v.push(format!("dial {n} 0"));
         v.push(format!("dial {n} 1"));
     }
+    // a sync report arrives from the peer (handled by the real `on_sync_report`): heads variant v
+    for n in 0..2 {
+        for v_ in 0..6 {
+            v.push(format!("report {n} {v_}"));
+        }
+    }
     for n in 0..2 {
         if net.ctasks[n].iter().any(|t| t.0 == CPhase::Requesting) {
             v.push(format!("deliver {n}"));
@@ -127,7 +133,7 @@ impl Property for C11 {
         false
     }
     fn rule(&self) -> String {
-        "schedules of 4-40 scheduler actions over two real live actors and one document (both syncing, or one of them not): dial decisions (new neighbour / sync report) by either node, delivery or loss of the oldest outstanding request, processing of connect-task completions (declined AlreadySyncing / NotFound, failed to connect, session end ok or failed), of accept-task completions and of declined-accept completions, each chosen among the currently enabled actions; dials are weighted down so that completions catch up; non-trivial = at least 2 dials and one session or one decline; distinct = distinct concrete schedules".into()
+        "schedules of 4-40 scheduler actions over two real live actors and one document (both syncing, or one of them not): dial decisions (new neighbour / sync report) by either node, sync reports handled by the real on_sync_report (heads older, equal, newer than the entry held, an unknown author, no heads, undecodable bytes; dial exactly on news), delivery or loss of the oldest outstanding request, processing of connect-task completions (declined AlreadySyncing / NotFound, failed to connect, session end ok or failed), of accept-task completions and of declined-accept completions, each chosen among the currently enabled actions; dials are weighted down so that completions catch up; non-trivial = at least 2 dials and one session or one decline; distinct = distinct concrete schedules".into()
     }
     fn corpus(&self) -> Vec<(String, Vec<Op>)> {
         let acts = |v: &[&str]| -> Vec<Op> {
@@ -184,6 +190,20 @@ impl Property for C11 {
                     nodes[n].coord.start_sync(nsid).await?;
                 }
             }
+            // both nodes hold one entry of author A at time 10 (what sync reports are compared with)
+            let author_a = iroh_docs::Author::from_bytes(&[0x41; 32]);
+            let author_b = iroh_docs::Author::from_bytes(&[0x42; 32]);
+            let held = make_entry(&ns, &author_a, b"k", Some(0), 10);
+            for n in 0..2 {
+                nodes[n]._sync.open(nsid, iroh_docs::actor::OpenOpts::default().sync()).await?;
+                nodes[n]._sync.insert_remote(nsid, held.clone(), PEER, iroh_docs::ContentStatus::Missing).await?;
+                nodes[n]._sync.close(nsid).await?;
+            }
+            let nshex = hex(nsid.as_bytes());
+            lines.push(Line::model("tnew 7", "ok"));
+            lines.push(Line::model(format!("tns 7 {nshex} 1 {}", hex(&ns.to_bytes())), "inserted"));
+            lines.push(Line::model(format!("tput 7 {}", honest_fp_tok(&held)), "inserted 0"));
+            let _ = NOW;
             let _ = iroh_docs::verif::take_dials();
             let mut net = Net::default();
             let mut fin_toggle = false;
@@ -198,7 +218,7 @@ impl Property for C11 {
                     Op::Choose { k } => {
                         let en = enabled(&net);
                         // weigh dials down: 4 dial actions are always enabled
-                        let non_dials: Vec<&String> = en.iter().filter(|a| !a.starts_with("dial")).collect();
+                        let non_dials: Vec<&String> = en.iter().filter(|a| !a.starts_with("dial") && !a.starts_with("report")).collect();
                         if !non_dials.is_empty() && k % 3 != 0 {
                             non_dials[(k / 3) % non_dials.len()].clone()
                         } else {
@@ -210,7 +230,24 @@ impl Property for C11 {
                 let n: usize = t[1].parse().unwrap();
                 let other = 1 - n;
                 let mk_finished = |peer: iroh::PublicKey| SyncFinished { namespace: nsid, peer, outcome: SyncOutcome::default(), timings: Default::default() };
+                // for a report: (heads as the specification reads them, is it news by construction)
+                let mut report_spec: Option<(String, bool)> = None;
+                let resync_before = nodes[n].coord.snapshot(nsid, ids[other]).map(|s| s.1).unwrap_or(false);
                 match t[0] {
+                    "report" => {
+                        let v: usize = t[2].parse().unwrap();
+                        let mut h = iroh_docs::AuthorHeads::default();
+                        let (tok, news) = match v {
+                            0 => { h.insert(author_a.id(), 9); (format!("{}=9", hex(author_a.id().as_bytes())), false) }
+                            1 => { h.insert(author_a.id(), 10); (format!("{}=10", hex(author_a.id().as_bytes())), false) }
+                            2 => { h.insert(author_a.id(), 11); (format!("{}=11", hex(author_a.id().as_bytes())), true) }
+                            3 => { h.insert(author_b.id(), 1); (format!("{}=1", hex(author_b.id().as_bytes())), true) }
+                            _ => ("-".to_string(), false),
+                        };
+                        let bytes = if v == 5 { vec![0xFF, 0xFF, 0xFF] } else { h.encode(None)? };
+                        nodes[n].coord.on_sync_report(ids[other], nsid, bytes).await;
+                        report_spec = Some((tok, news));
+                    }
                     "dial" => {
                         let reason = if t[2] == "1" { SyncReason::SyncReport } else { SyncReason::NewNeighbor };
                         nodes[n].coord.sync_with_peer(nsid, ids[other], reason);
@@ -295,7 +332,17 @@ impl Property for C11 {
                     net.ctasks[from].push((CPhase::Requesting, reason));
                     net.dials[from] += 1;
                 }
-                if t[0] == "dial" && t[2] == "1" && syncing[n] && !dialed[n] {
+                if let Some((tok, _)) = &report_spec {
+                    // specification (C13 at the engine): a report leads to a dial (or, while the slot is
+                    // busy, to a pending follow-up) exactly when it names news
+                    if syncing[n] && !resync_before {
+                        let resync_now = nodes[n].coord.snapshot(nsid, ids[other]).map(|s| s.1).unwrap_or(false);
+                        let obs = if dialed[n] || resync_now { "dial" } else { "quiet" };
+                        lines.push(Line::oracle(format!("snewsdial 7 {nshex} {tok}"), obs));
+                    }
+                }
+                let is_news_report = matches!(&report_spec, Some((_, true)));
+                if ((t[0] == "dial" && t[2] == "1") || is_news_report) && syncing[n] && !dialed[n] {
                     // a sync report that did not lead to a dial: refused because the slot is busy
                     pending_report[n] = true;
                     covered[n] = false;
@@ -309,7 +356,17 @@ impl Property for C11 {
                     });
                 }
                 let imp = format!("a={} b={} sessions={}", snap[0], snap[1], net.sessions);
-                lines.push(Line::model(format!("cstep 1 1 {act}"), imp.clone()));
+                // the protocol model sees a report with news as a dial decision, one without as nothing
+                let model_act = match &report_spec {
+                    Some((_, true)) => Some(format!("dial {n} 1")),
+                    Some((_, false)) => None,
+                    None => Some(act.clone()),
+                };
+                if let Some(a) = model_act {
+                    lines.push(Line::model(format!("cstep 1 1 {a}"), imp.clone()));
+                } else {
+                    lines.push(Line::model("csnap 1 1", imp.clone()));
+                }
                 // specifications on the implementation's observables
                 let quiescent = net.ctasks.iter().all(|c| c.is_empty()) && net.atasks.iter().all(|c| c.is_empty()) && net.declined.iter().all(|c| c.is_empty());
                 let ready = (0..2).all(|m| match nodes[m].coord.snapshot(nsid, ids[1 - m]) { Some((st, _)) => st == 0, None => true });
@@ -339,6 +396,12 @@ impl Property for C11 {
     fn features(&self, _ops: &[Op], lines: &[Line]) -> Vec<String> {
         let mut f = vec![];
         for l in lines {
+            if l.op.starts_with("snewsdial") {
+                f.push(format!("report-decision:{}", l.imp));
+            }
+            if l.op.starts_with("csnap") {
+                f.push("action:report-without-news".to_string());
+            }
             if l.op.starts_with("cstep") {
                 let t: Vec<&str> = l.op.split(' ').collect();
                 f.push(format!("action:{}", t[3]));
